@@ -1081,6 +1081,76 @@ theorem droppedEmpty_prun {p : Proc} (hp : DroppedEmpty p) (ops : List POp) : Dr
   | nil => exact hp
   | cons o os ih => exact ih (droppedEmpty_pstep hp o)
 
+/-! ### the two excluded misuses, precisely -/
+
+theorem firstBase_append_some (l : List HF) (f : HF) (i j : Nat) (h : firstBase l i = some j) :
+    firstBase (l ++ [f]) i = some j := by
+  induction l generalizing i with
+  | nil => cases h
+  | cons a r ih => cases a <;> simp_all [firstBase]
+
+theorem stop_stopH (c : Ctx) : (stop c).1.stopH = c.stopH := by
+  cases hA : c.active with
+  | false => simp [stop, stopHead, hA]
+  | true =>
+    cases hB : firstBase c.stopH 0 with
+    | some i => simp [stop, stopHead, hA, hB, stopAborted]
+    | none =>
+      simp only [stop, stopHead, hA, hB, Bool.not_true, if_false, Bool.false_eq_true, stopRpcObjects, stopCollect]
+      exact congrArg Flags.stopH (flags_stopManagers _ _)
+
+/-- once a stop handler raising a non-`Exception` is registered it stays the first such handler for ever -/
+theorem firstBase_step {c : Ctx} {i : Nat} (h : firstBase c.stopH 0 = some i) (op : Op) :
+    firstBase (step c op).1.stopH 0 = some i := by
+  by_cases h1 : ∃ t u, op = .start t u
+  · obtain ⟨t, u, rfl⟩ := h1
+    show firstBase (start _ t u).1.stopH 0 = some i
+    rw [start_stopH]; exact h
+  · by_cases h2 : op = .stop
+    · subst h2
+      show firstBase (stop _).1.stopH 0 = some i
+      rw [stop_stopH]; exact h
+    · by_cases h3 : ∃ f, op = .addH f
+      · obtain ⟨f, rfl⟩ := h3
+        exact firstBase_append_some _ _ _ _ h
+      · have f := flags_step c op (fun t u e => h1 ⟨t, u, e⟩) h2 (fun f e => h3 ⟨f, e⟩)
+        have e : (step c op).1.stopH = c.stopH := congrArg Flags.stopH f
+        rw [e]; exact h
+
+theorem firstBase_run {c : Ctx} {i : Nat} (h : firstBase c.stopH 0 = some i) (ops : List Op) :
+    firstBase (run c ops).stopH 0 = some i := by
+  induction ops generalizing c with
+  | nil => exact h
+  | cons op ops ih => exact ih (firstBase_step h op)
+
+/-- the singleton holds a context that was stopped behind `qmi`'s back -/
+def StoppedP (p : Proc) : Prop := ∃ d, p.single = some d ∧ Stopped d
+
+theorem stoppedP_pstep {p : Proc} (h : StoppedP p) (o : POp) :
+    StoppedP (pstep p o).1 ∧
+    ((∃ v t tf uf peers, o = .qstart v t tf uf peers) ∨ o = .qstop → (pstep p o).2 = .exc .usage) := by
+  obtain ⟨d, hd, hs⟩ := h
+  have h0 : Stopped { d with log := [] } := ⟨hs.1, hs.2, hs.3, hs.4, hs.5, hs.6, hs.7⟩
+  cases o with
+  | qstart v t tf uf peers =>
+    simp only [pstep, pstep', Proc.clr, hd, Option.map_some, qstart]
+    exact ⟨⟨_, rfl, h0⟩, fun _ => trivial⟩
+  | qstop =>
+    have e : stop { d with log := [] } = ({ d with log := [] }, .exc .usage) := by simp [stop, stopHead, hs.inactive]
+    simp only [pstep, pstep', Proc.clr, hd, Option.map_some, qstop, e]
+    exact ⟨⟨_, rfl, h0⟩, fun _ => trivial⟩
+  | qcontext =>
+    simp only [pstep, pstep', Proc.clr, hd, Option.map_some]
+    exact ⟨⟨_, rfl, h0⟩, fun h => by rcases h with ⟨_, _, _, _, _, h⟩ | h <;> cases h⟩
+  | op o =>
+    simp only [pstep, pstep', Proc.clr, hd, Option.map_some]
+    exact ⟨⟨_, rfl, stopped_step h0 o⟩, fun h => by rcases h with ⟨_, _, _, _, _, h⟩ | h <;> cases h⟩
+
+theorem stoppedP_prun {p : Proc} (h : StoppedP p) (ops : List POp) : StoppedP (prun p ops) := by
+  induction ops generalizing p with
+  | nil => exact h
+  | cons o os ih => exact ih (stoppedP_pstep h o).1
+
 theorem qclean_ok (p : Proc) (hn : p.single = none) (t : Bool) :
     (pstep p (.qstart true t false false [])).2 = .ok := by
   simp only [pstep, pstep', Proc.clr, hn, Option.map_none, qstart, Bool.not_true, Bool.false_eq_true, if_false]
